@@ -168,3 +168,27 @@ theorem C17_live_length_witness :
 
 example : SInv appStatic appStart ∧ TInv appStatic appStart :=
   ⟨step_inv _ _ _ (init_inv _), ⟨by decide, by intro m hm; simp [appStart, step, GState.init] at hm⟩⟩
+
+/-! ### Modules that are still being imported (finding F44, repaired in /repo) -/
+
+/-- **C17_initializing_once**: scans during which some modules are still being imported keep every invariant of the plain
+scan (no glue twice, never both kinds, module glue first) … -/
+theorem C17_initializing_once (st : Static) (g : GState) (init : List Mod) (h : SInv st g) : SInv st (addGlueI st g init) :=
+  addGlueI_inv st g init h
+
+/-- … and leave such a module completely alone — in particular its built-in glue stays pending, so its own glue can still
+take precedence once the import has finished. -/
+theorem C17_initializing_untouched (st : Static) (init : List Mod) (g : GState) (m : Mod) (hm : init.contains m = true) :
+    visitI st init g m = g := visitI_skips st init g m hm
+
+/-- The history of F44 on the model: module 1 has both kinds of glue (its own is defined by the end of its body); an extraction
+happens while it is being imported, another one afterwards.  Repaired scan: its own glue only.  Old scan: the built-in glue at
+the first extraction. -/
+def f44Static : Static := { hasModGlue := fun m => m = 1, hasBuiltin := fun m => m = 1, modRaises := fun _ => false, builtinRaises := fun _ => false }
+def f44Start : GState := step f44Static GState.init (.insert 1)
+/-- while the body runs the module has no glue attribute yet: the scan sees only the built-in one -/
+def f44During : Static := { f44Static with hasModGlue := fun _ => false }
+
+theorem C17_F44_witness :
+    (addGlueIOld f44During f44Start [1]).log = [.ranBuiltin 1, .returned]
+    ∧ (addGlue f44Static (addGlueI f44During f44Start [1])).log = [.returned, .ranMod 1, .returned] := by decide
